@@ -11,7 +11,7 @@ ASSUMPTIONS = ["names are valid UTF-8 of at most 32 bytes not ending in NUL; rem
                "with byte 136 zero; remote id 8 bytes of valid UTF-8"]
 RULE = ("descriptions of devices of all 9 types with random field values, ON and OFF, names in several scripts and of every byte "
         "length, every filler byte random, encoded by the Spec encoder and handed to the real parser directly and through a running "
-        "bridge on loopback UDP; the 18 captures of tests/testresources; non-trivial = distinct descriptions")
+        "bridge on loopback UDP (35 % of them repeated byte-identically, as an idle device does); the 18 captures of tests/testresources; non-trivial = distinct descriptions")
 REQUIREMENT = ("the callback receives one object of the family's class whose fields equal the description (Spec/Encoders.v "
                "expected_bcast): OFF reports power 0, amps 0.0 and remaining 00:00:00; type-2 MAC at bytes 81-86")
 TYPES = [t.name for t in DeviceType]
@@ -88,7 +88,8 @@ def encode(cases):
 
 
 async def through_bridge(datagrams):
-    """feed the datagrams to a running bridge over loopback UDP; returns the rendered device per datagram (in order)"""
+    """feed the datagrams to a running bridge over loopback UDP, one at a time; returns the rendered device per datagram (in order).
+    Consecutive byte-identical datagrams are ordinary broadcasts of an idle device: each must produce its own device."""
     s = socket.socket(socket.AF_INET, socket.SOCK_DGRAM); s.bind(("127.0.0.1", 0)); port = s.getsockname()[1]; s.close()
     got = []
     bridge = SwitcherBridge(lambda d: got.append(show(d)), [port])
@@ -135,8 +136,12 @@ def run(tier, rnd, out):
     if tier == "thorough":
         for w in range(0, 65536, 7): d = rand_desc(rnd, rnd.choice(TYPES[:6]), 1); d[7] = w; cs.append(mk_case(rnd, d))
     run_stream(out, "encoded-descriptions", cs)
-    cs = [mk_case(rnd, rand_desc(rnd)) for _ in range(150 if tier == "quick" else 2000)]
-    run_stream(out, "through-a-running-bridge", cs, via_bridge=True)
+    cs = [mk_case(rnd, rand_desc(rnd)) for _ in range(110 if tier == "quick" else 1500)]
+    rep = []
+    for c in cs:
+        rep.append(c)
+        if rnd.random() < .35: rep += [c] * rnd.choice([1, 1, 2])          # an idle device repeats its broadcast unchanged
+    run_stream(out, "through-a-running-bridge", rep, via_bridge=True)
     caps = captures()
     io = [impl(d) for d in caps]; mo = lib.run_model([lib.req("bcast", d) for d in caps])
     lib.differential(out, "captures", [{"datagram": d.hex()} for d in caps], io, mo, None, lambda c: "capture " + c["datagram"][:40])
